@@ -8,7 +8,9 @@ import common
 import export as X
 import cert as C
 
-THEOREMS = ["Adc.checkEquiv_sound", "Adc.elim_sound", "Adc.alpha_sound", "Adc.wickS_sound"]
+THEOREMS = ["Adc.checkEquiv_sound", "Adc.elim_sound", "Adc.alpha_sound", "Adc.wickS_sound",
+            "Adc.isr_orthonormal_series", "Adc.isr_orthonormal_orders", "Adc.mem_genTermOrders", "Adc.nodup_genTermOrders",
+            "Adc.coeff_tail_pow", "Adc.coeff_list_prod"]
 
 SPACES = {"pp": ["ph", "pphh"], "ip": ["h", "phh"], "ea": ["p", "pph"], "dip": ["hh"], "dea": ["pp"]}
 OCC, VIRT = "ijklmno", "abcdefgh"
@@ -114,6 +116,8 @@ def plan(ctx):
 
 
 def run(ctx):
+    import recipes
+    recipes.check_series_tables(ctx, ("orders", "invsqrt"))   # tie D for Adc/Series.lean (isr_orthonormal_series)
     jobs = plan(ctx)
     ctx.count("planned_derivations", len(jobs))
     with mp.Pool(processes=min(14, len(jobs))) as pool:
